@@ -33,6 +33,9 @@ Strata added by the coverage audit (each has its own counter / REQUIRED_HITS ent
   * odd envelopes (no / 40 / 300 recipients, duplicate and non-ASCII addresses, null and non-ASCII
     sender, no message at all, 300 kB bodies, custom attributes, client dict with odd values) and
     odd timestamps (int, 0, negative, far future, equal for several messages, 17 significant digits);
+  * disk configurations: env_dir == meta_dir, env_dir == meta_dir == tmp_dir, tmp_dir left to the system,
+    directories that already hold unrelated entries (README, a sub-directory, a *.tmp leftover), relative
+    paths;
   * DictStorage.get_info() (bytes ids for redis are recorded, not judged); cloud+mq whose queue_message() always fails
     (write() must still store the message and return its id).
 
@@ -129,6 +132,7 @@ REQUIRED_HITS = (['%s/%s' % (h, f) for f in FAMS
                  ['overlapped-ops/%s' % f for f in OVERLAP_FAMS] +
                  ['two-objects-get-compared/%s' % f for f in TWO_FAMS] +
                  ['get-info-judged/%s' % f for f in DICT_FAMS] +
+                 ['shared-directory-load-judged/disk'] +
                  ['load-with-notifications-pending/redis', 'load-after-drain/redis',
                   'announcements-judged/redis', 'announcements-judged/cloud-strict',
                   'announcements-judged/cloud-lenient', 'write-with-failing-message-queue/cloud-strict',
@@ -157,6 +161,7 @@ PLAN = [
     ('cloud-lenient', {'mq': True}, 'overlap', 300, 10000),
 ]
 
+DISK_LAYOUTS = ['separate', 'separate', 'shared', 'shared', 'shared-all', 'tmp-none']
 XOPS = ['set_timestamp', 'increment_attempts', 'set_recipients_delivered', 'remove']
 SHARED_TS = 1500000000.0
 UNKNOWN_ID = 'feedfacefeedfacefeedfacefeedface'
@@ -343,6 +348,9 @@ def gen_case(fam, cfg, mode, rnd):
             'two': fam in TWO_FAMS and rnd.random() < 0.35, 'obj_seed': rnd.randrange(1 << 30),
             'given_dicts': fam == 'dict' and rnd.random() < 0.5,
             # the message queue refuses every announcement: write() must still store and return the id
+            'disk_layout': rnd.choice(DISK_LAYOUTS) if fam == 'disk' else None,
+            'disk_clutter': fam == 'disk' and rnd.random() < 0.3,
+            'disk_relative': fam == 'disk' and rnd.random() < 0.3,
             'mq_fail': bool(fam.startswith('cloud') and cfg.get('mq') and rnd.random() < 0.12),
             'collide': ([k for k in range(1, nm) if rnd.random() < 0.5]
                         if mode == 'seq' and fam in COLLIDE_FAMS and rnd.random() < 0.4 else [])}
@@ -549,11 +557,31 @@ def make_backend(case):
         return factory, cleanup, {}
     if fam == 'disk':
         d = os.path.join(_scratch(), 'd%d' % next(_SEQ))
-        for x in ('env', 'meta', 'tmp'):
+        layout = case.get('disk_layout') or 'separate'
+        if layout == 'tmp-none' and os.stat(_scratch()).st_dev != os.stat(tempfile.gettempdir()).st_dev:
+            layout = 'separate'      # rename() from the system temp directory cannot cross file systems
+        # separate: three directories; shared: envelopes and metadata in one directory (files are
+        # <id>.env / <id>.meta); shared-all: scratch files there too; tmp-none: tmp_dir left to the system
+        names = {'separate': ('env', 'meta', 'tmp'), 'shared': ('q', 'q', 'tmp'), 'shared-all': ('q', 'q', 'q'),
+                 'tmp-none': ('env', 'meta', None)}[layout]
+        for x in set(names) - {None}:
             os.makedirs(os.path.join(d, x))
+        if case.get('disk_clutter'):
+            # things a queue directory may hold that are no messages
+            for x in set(names[:2]):
+                with open(os.path.join(d, x, 'README'), 'w') as f:
+                    f.write('queue directory\n')
+                os.makedirs(os.path.join(d, x, 'lost+found'))
+                with open(os.path.join(d, x, 'tmpleftover.tmp'), 'wb') as f:
+                    f.write(b'\x80\x04partial')
+        paths = [None if x is None else os.path.join(d, x) for x in names]
+        if case.get('disk_relative'):
+            paths = [None if x is None else os.path.relpath(x) for x in paths]
 
         def factory():
-            return DiskStorage(os.path.join(d, 'env'), os.path.join(d, 'meta'), os.path.join(d, 'tmp'))
+            if paths[2] is None:
+                return DiskStorage(paths[0], paths[1])
+            return DiskStorage(paths[0], paths[1], paths[2])
         return factory, (lambda: shutil.rmtree(d, ignore_errors=True)), {}
     if fam == 'redis':
         if _MR[0] is None:
@@ -1256,6 +1284,15 @@ class Lab(object):
                 listed[i] = ts
             if L['overl']:
                 self.R.hit('overlap-load-judged/%s' % self.fam)
+            if self.fam == 'disk':
+                lay = self.case.get('disk_layout') or 'separate'
+                self.R.count('disk-load-judged/layout-%s' % lay)
+                if lay.startswith('shared'):
+                    self.R.hit('shared-directory-load-judged/disk')
+                if self.case.get('disk_clutter'):
+                    self.R.count('disk-load-judged/cluttered-directory')
+                if self.case.get('disk_relative'):
+                    self.R.count('disk-load-judged/relative-paths')
             self.R.count('load-items-judged/%s' % self.fam, len(listed))
             if dup is not None:
                 self.violation('load', 'lists-id-twice', 'load listed %r twice' % dup, {'id': dup}, None, True)
